@@ -143,6 +143,9 @@ def ref(o, p, ms):
         f = {'sum': lambda xs: sum(xs[1:], xs[0]), 'min': lambda xs: omin(o, xs),
              'max': lambda xs: omax(o, xs), 'argmax': lambda xs: oargmax(o, xs)}[op]
         return reduce_axis(o, a, p.get('axis'), f)
+    if op == 'setitem_widen':
+        ob = p['shapes'][0][2]
+        return [[x % (1 << ob) for x in b[0]]] + [list(row) for row in a[1:]]
     if op == 'flatten':
         return [flat(a, p.get('order', 'C'))]
     if op == 'reshape':
@@ -251,7 +254,14 @@ def _build(p):
     elif op == 'pow':
         res = a ** p['k']
     elif op in ('sum', 'min', 'max', 'argmax'):
-        res = getattr(M, op)(a, axis=p.get('axis'))
+        kw = {'bits': p['rbits']} if p.get('rbits') else {}
+        res = getattr(M, op)(a, axis=p.get('axis'), **kw)
+    elif op == 'setitem_widen':
+        # a history on one object: a row is assigned from a wider matrix (truncated to the element width
+        # at that moment), later the element width is raised
+        a[0, :] = b
+        a.bits = p['newbits']
+        res = a
     elif op == 'flatten':
         res = a.flatten(order=p.get('order', 'C'))
     elif op == 'reshape':
